@@ -178,10 +178,14 @@ CLAIMED.update({
                  'bracket), strip returns exactly the atoms as clean text and a dictionary that holds, per atom index, exactly '
                  'the descriptors written after that atom in order with their order digit, no marks, no annotations '
                  '(C13_chain, with exact loop-iteration accounting); the single-atom statement with arbitrary following text '
-                 '(C13_descriptors_after_atom); test-suite strings by kernel evaluation. Branches, ring digits, bracket atoms '
-                 'with annotations, slash marks: position-generic statement (after any atom, ring digits, branch '
-                 'closings, annotations) validated by exact correspondence on generated and mutated fragment texts + the '
-                 'builder\'s expected 4-tuple (partial).'),
+                 '(C13_descriptors_after_atom); C13_tokens: every stream of plain atoms, bond symbols, ring-closure runs (digits '
+                 'and %nn, with or without ring bond symbol), balanced parentheses at any nesting, and descriptors written after '
+                 'an atom, after that atom\'s ring digits or after another descriptor is separated exactly — clean text = text '
+                 'without descriptors, every descriptor under the index of the atom it was written after (atoms counted in order '
+                 'of appearance, also inside branches) — by simulation of the loop, one iteration per token (stripAux_tokens, '
+                 'fold_fields); test-suite strings by kernel evaluation. Bracket atoms with annotations, two-letter elements, '
+                 'slash marks, descriptors after a branch closing: validated by exact correspondence on generated and mutated '
+                 'fragment texts + the builder\'s expected 4-tuple (partial).'),
         'note': READ_NOTE,
         'design': '§7 C13',
     },
